@@ -199,6 +199,8 @@ def info(number, separator=''):
         value = number[:_max_length(info['format'], info['type'])]
         if separator and info.get('fnc1', False):
             idx = number.find(separator)
+            if idx == 0:
+                raise InvalidFormat()  # empty values are not allowed
             if idx > 0:
                 value = number[:idx]
         number = number[len(value):]
